@@ -139,7 +139,7 @@ def group_inflate(recs):
     for r in recs:
         k = (r["wrap"], bytes(r["inp"]), bytes(r["dict"]), r.get("salt", 0))     # salt: spread the runs of one large stream over several TLC shards
         g = groups.setdefault(k, {"scn": r["scn"], "wrap": r["wrap"], "inp": r["inp"], "dict": r["dict"], "runs": [], "calls": []})
-        g["runs"].append({"scn": r["scn"], "api": r["api"], "calls": r["calls"], "end": r["end"], "expect_ret": r["expect_ret"], "complete_supply": r["complete_supply"]})
+        g["runs"].append({"scn": r["scn"], "api": r["api"], "calls": r["calls"], "end": r["end"], "expect_ret": r["expect_ret"], "complete_supply": r["complete_supply"], "hist_bits": r["hist_bits"]})
         g["calls"] += [0] * len(r["calls"])
     return list(groups.values())
 
